@@ -1,4 +1,5 @@
 import DeltaModel.IngestMachine
+import Proofs.TruncTotal
 /-!
 C01 / T4 helper lemmas: what `truncate_str` (`Line.truncate`, the character-level model of
 `truncate_str_impl`) keeps of a line — the longest prefix of its grapheme clusters that fits next to
@@ -97,8 +98,15 @@ theorem fitCount_append (dw : Nat) (a b : List G) :
       · rename_i h; rw [if_pos (by omega)]; simp [Nat.add_assoc]; omega
       · rename_i h; rw [if_neg (by omega)]
 
-/-- what the filler of a split wide cluster can be -/
-def Filler (fill : Option Char) (f : List G) : Prop := f = [] ∨ ∃ ch, fill = some ch ∧ f = [⟨[ch], 1⟩]
+/-- what the filler of a split wide cluster can be: nothing, or the fill character some number of times (once for a
+two-column cluster; `display_width - used` times for a cluster wider than two columns: `truncText_filler_fits`) -/
+def Filler (fill : Option Char) (f : List G) : Prop :=
+  f = [] ∨ ∃ ch n, fill = some ch ∧ f = List.replicate n ⟨[ch], 1⟩
+
+theorem gWidth_replicate_one (n : Nat) (s : List Char) : gWidth (List.replicate n ⟨s, 1⟩) = n := by
+  induction n with
+  | zero => simp [gWidth]
+  | succ n ih => rw [List.replicate_succ, gWidth_cons, ih]; show 1 + n = n + 1; omega
 
 /-- The inner loop of `truncate_str_impl`: it keeps the leading clusters that fit, in order, and
 reports a cut iff one did not fit (then possibly one filler column for a split wide cluster). -/
@@ -132,9 +140,15 @@ theorem truncText_spec (dw : Nat) (fill : Option Char) (gs : List G) :
         split at h
         · simp at h
           obtain ⟨rfl, rfl, rfl⟩ := h
-          simp [gWidth, Filler]
+          simp only [List.take_zero, gWidth, List.map_nil, List.sum_nil, Nat.add_zero, List.nil_append, true_and]
+          exact ⟨by simp, fun _ => ⟨by simp, _, Or.inr ⟨f, 1, rfl, rfl⟩, rfl⟩⟩
         · split at h
-          · cases h
+          · split at h
+            · cases h
+            · simp at h
+              obtain ⟨rfl, rfl, rfl⟩ := h
+              simp only [List.take_zero, gWidth, List.map_nil, List.sum_nil, Nat.add_zero, List.nil_append, true_and]
+              exact ⟨by simp, fun _ => ⟨by simp, _, Or.inr ⟨f, _, rfl, rfl⟩, rfl⟩⟩
           · simp at h
             obtain ⟨rfl, rfl, rfl⟩ := h
             simp [gWidth, Filler]
@@ -158,6 +172,100 @@ theorem truncText_spec (dw : Nat) (fill : Option Char) (gs : List G) :
           obtain ⟨a, f, hf, b⟩ := h3 hc
           refine ⟨by simp; omega, f, hf, ?_⟩
           simp [b]
+
+/-- The filler, exactly, by the first cluster `g` that does not fit when `used'` columns are taken: one fill
+character for a two-column cluster if a column is left; for a cluster wider than two columns (the fallback of
+`truncate_str_impl`, reached since fix d6cf9d0) as many as columns are left; else none. -/
+def fillerFor (dw : Nat) (fill : Option Char) (used' : Nat) (g : G) : List G :=
+  match fill with
+  | none => []
+  | some ch =>
+    if g.w = 2 ∧ used' < dw then [⟨[ch], 1⟩]
+    else if g.w > 2 then List.replicate (dw - used') ⟨[ch], 1⟩
+    else []
+
+/-- the filler never goes beyond the limit -/
+theorem fillerFor_fits (dw : Nat) (fill : Option Char) (used' : Nat) (g : G) (h : used' ≤ dw) :
+    used' + gWidth (fillerFor dw fill used' g) ≤ dw := by
+  unfold fillerFor
+  cases fill with
+  | none => simp [gWidth]; exact h
+  | some ch =>
+    simp only
+    split
+    · rename_i h2; simp [gWidth]; omega
+    · split
+      · rw [gWidth_replicate_one]; omega
+      · simp [gWidth]; exact h
+
+/-- with a fill character, a cluster wider than one column that does not fit is filled up to the limit exactly -/
+theorem fillerFor_exact (dw : Nat) (ch : Char) (used' : Nat) (g : G) (h : used' ≤ dw) (hw : 2 ≤ g.w)
+    (hcut : dw < used' + g.w) : used' + gWidth (fillerFor dw (some ch) used' g) = dw := by
+  unfold fillerFor
+  simp only
+  split
+  · rename_i h2; simp [gWidth]; omega
+  · split
+    · rw [gWidth_replicate_one]; omega
+    · simp [gWidth]; omega
+
+/-- `truncText_spec`, the filler made exact: after a cut the clusters kept are the longest prefix that fits and
+`fillerFor` of the first cluster that does not. -/
+theorem truncText_filler (dw : Nat) (fill : Option Char) (gs : List G) :
+    ∀ (used : Nat) (kept : List G) (used' : Nat),
+      truncText dw fill used gs = some (kept, used', true) →
+      ∃ g, gs[fitCount dw used gs]? = some g ∧ dw < used' + g.w ∧
+        kept = gs.take (fitCount dw used gs) ++ fillerFor dw fill used' g := by
+  induction gs with
+  | nil => intro used kept used' h; simp [truncText] at h
+  | cons g gs ih =>
+    intro used kept used' h
+    simp only [truncText] at h
+    by_cases hgt : used + g.w > dw
+    · rw [if_pos hgt] at h
+      have hfc : fitCount dw used (g :: gs) = 0 := by simp [fitCount, hgt]
+      rw [hfc]
+      refine ⟨g, by simp, ?_⟩
+      cases fill with
+      | none =>
+        simp at h
+        obtain ⟨rfl, rfl⟩ := h
+        exact ⟨hgt, by simp [fillerFor]⟩
+      | some f =>
+        simp only at h
+        split at h
+        · rename_i h2
+          simp at h
+          obtain ⟨rfl, rfl⟩ := h
+          exact ⟨hgt, by simp [fillerFor, h2]⟩
+        · rename_i h2
+          split at h
+          · rename_i h3
+            split at h
+            · cases h
+            · simp at h
+              obtain ⟨rfl, rfl⟩ := h
+              refine ⟨hgt, ?_⟩
+              simp only [fillerFor, List.take_zero, List.nil_append]
+              rw [if_neg h2, if_pos h3]
+          · rename_i h3
+            simp at h
+            obtain ⟨rfl, rfl⟩ := h
+            refine ⟨hgt, ?_⟩
+            simp only [fillerFor, List.take_zero, List.nil_append]
+            rw [if_neg h2, if_neg h3]
+    · rw [if_neg hgt] at h
+      have hfc : fitCount dw used (g :: gs) = fitCount dw (used + g.w) gs + 1 := by simp [fitCount, hgt]
+      rw [hfc]
+      cases hr : truncText dw fill (used + g.w) gs with
+      | none => rw [hr] at h; cases h
+      | some res =>
+        obtain ⟨r, u, c'⟩ := res
+        rw [hr] at h
+        simp at h
+        obtain ⟨rfl, rfl, rfl⟩ := h
+        obtain ⟨g', h1, h2, h3⟩ := ih (used + g.w) r u hr
+        exact ⟨g', by simpa using h1, h2, by simp [h3]⟩
 
 theorem gsOf_append (a b : List Item) : gsOf (a ++ b) = gsOf a ++ gsOf b := by
   induction a with
